@@ -189,7 +189,9 @@ class Plugin:
         s = "".join(rng.choice(STR_ALPHABET) for _ in range(n))
         if rng.random() < 0.25:
             s = rng.choice(["\r", "\r\n", "a\rb", "x\r\ny\rz", "<item>test thing</item>", "]]>", "a]]>b", "&#13;", "&lt;", " lead", "trail ",
-                            "\n", "\t", "<![CDATA[x]]>", "<!-- c -->", "<?pi?>", "\U0010ffff", "퟿�", "\x7f\x80\x85 "]) + s
+                            "\n", "\t", "<![CDATA[x]]>", "<!-- c -->", "<?pi?>",
+                            # text that means something to str.format / %-formatting / string.Template
+                            "{}", "{0}", "{action}", "{{x}}", "a{b", "}", '{"k": 1}', "%s", "%(x)s", "100%", "$x", "${y}", "\\n", "\\", "\U0010ffff", "퟿�", "\x7f\x80\x85 "]) + s
         if not legal:
             i = rng.randint(0, len(s))
             s = s[:i] + rng.choice(["\x00", "\x01", "\x08", "\x0b", "\x0c", "\x1f", "\ufffe", "\uffff"]) + s[i:]
